@@ -971,7 +971,7 @@ mutual
         let ib := rc.indentBeforeWrite
         let cp := rc.contentProduced
         modify (fun rc => { rc with
-          indentBeforeWrite := dt.indentBeforeWrite && (rc.trailingNewline || dt.indent.isSome),
+          indentBeforeWrite := ib || (dt.indentBeforeWrite && (rc.trailingNewline || dt.indent.isSome)),
           contentProduced := false })
         expandPartial reg root fuel di
         modify (fun rc =>
